@@ -1,0 +1,7 @@
+//go:build !verif
+
+package avro
+
+// verifPoint marks a point of interest for the verification harness. It does
+// nothing (and is inlined away) unless the package is built with -tags verif.
+func verifPoint(string) {}
